@@ -130,6 +130,49 @@ R4 = {
  "C20-h": ("CalculateLoRaAirtime forces low-data-rate optimisation when the symbol time exceeds 16 ms", "SF11/SF12 at 125 kHz (SF12 at 250 kHz) with LDRO off"),
 }
 R2.update(R4)
+R5 = {
+ "C01-i": ("CFListChannelPayload decoder stops at the first zero frequency", "a channel CFList with an unused slot before a used one"),
+ "C01-j": ("FHDR decoder builds FCnt with the shift applied before widening", "FCnt mod 2^16 >= 256"),
+ "C02-i": ("data MIC input assembled in a fixed 256-byte buffer (block + message)", "messages of 241..255 bytes: tail not authenticated"),
+ "C02-j": ("downlink B0 writes ConfFCnt big-endian", "1.1 downlink with ACK and a ConfFCnt whose two bytes differ"),
+ "C03-i": ("PHYPayload.EncryptFOpts marshals the commands into a fixed 15-byte buffer with copy", "FOpts of 16 or more bytes: truncated to 15, nil returned"),
+ "C03-j": ("exported EncryptFOpts sets the counter-id byte only for downlinks", "every uplink FOpts key-stream"),
+ "C04-i": ("DecryptJoinAcceptPayload refuses ciphertexts longer than 28 bytes (MIC included)", "every join-accept with a CFList"),
+ "C04-j": ("OptNeg MIC defaults join-request type 0 to JoinRequestType", "1.1 join-accept answering rejoin type 0"),
+ "C05-i": ("data-MIC functions drop the type check of MACPayload", "a frame whose MType bits were flipped in transit: validation panics"),
+ "C05-j": ("isUplink() list of downlink MTypes omits ConfirmedDataDown (as C01-g)", "ConfirmedDataDown frames"),
+ "C06-i": ("Redundancy decoder drops the 3-bit mask of ChMaskCntl", "LinkADRReq with the RFU bit 7 of the Redundancy octet set"),
+ "C06-j": ("CFList channel encoder refuses the frequency code 0xFFFFFF (as C01-e)", "1677721500 Hz in a CFList"),
+ "C07-i": ("DeviceTimeAns range check on the truncated seconds quotient", "durations in (-1 s, 0): encoded as positive fractions"),
+ "C07-j": ("DLChannelReq gets 2.4 GHz stepping without rejecting the 1.2-2.4 GHz gap", "frequencies 1.2-1.68 GHz decode doubled"),
+ "C08-i": ("MACPayload decoder keeps the FPort-0-with-FOpts check only in the payload branch", "FOptsLen > 0, FPort 0, empty FRMPayload: accepted, not encodable"),
+ "C08-j": ("FCtrl FOptsLen mask written 1<<3-1", "FOptsLen 8..15"),
+ "C09-i": ("HEXBytes.UnmarshalText reads text[1] when len(text) > 0", "the text \"0\""),
+ "C09-j": ("NetID.UnmarshalBinary reverses the caller's bytes in place", "rejoin type 0/2 frames and join-accept payloads with a non-palindromic NetID"),
+ "C10-i": ("DataFragmentPayload decoder checks len(data) against the receiver's stale Size()", "a shorter fragment decoded into a value that held a longer one"),
+ "C10-j": ("CFListChannelPayload decoder clears from index n+1", "a reused value decoded from fewer than five channels keeps one stale frequency"),
+ "C11-i": ("EUI64.Scan checks the number of bytes copied", "Scan of more than 8 bytes is accepted; shorter inputs clobber the receiver"),
+ "C11-j": ("AES128Key.MarshalBinary reverses each 8-byte half in place", "keys whose halves differ"),
+ "C12-i": ("AS923 RX1 uplink data-rate bound compared with len(dataRates)", "uplink DR 8 accepted"),
+ "C12-j": ("AU915 RX1 channel computed as channel/8", "every 125 kHz channel off the diagonal"),
+ "C13-i": ("AS923 RX1 floor applied only with dwell time", "AS923* without dwell time: negative RX1 index without error"),
+ "C13-j": ("TX power tables built by a helper; AU915 passes the highest index as the count", "AU915 TX power index 14"),
+ "C14-i": ("planner tests !custom before the device-activity test (index before guard)", "a device channel index beyond the network's list: panic"),
+ "C14-j": ("diff sorted only when the device list is unsorted", "two-sided differences on a multi-block plan: a block is planned twice"),
+ "C15-i": ("CFList channel loop 'full' test uses > instead of >=", "six or more CFList-capable custom channels: GetCFList panics"),
+ "C15-j": ("channel-mask CFList sized len/16+1", "CN470: seven masks, not encodable"),
+ "C16-i": ("join-server validates RxDelay in 1..15", "RxDelay 0"),
+ "C16-j": ("rejoin error answers built with the request's sender/receiver order", "RejoinAns for an unknown device"),
+ "C17-i": ("KeyEnvelope.Unwrap checks the length after unwrapping", "24 bytes + 1..7 trailing bytes accepted; AESKey shorter than 8 bytes panics"),
+ "C17-j": ("Frequency.UnmarshalJSON snaps to 100 Hz", "frequencies that are not multiples of 100 Hz"),
+ "C18-i": ("McClassCSessionAns treats TimeToStart = 0 as absent", "TimeToStart 0"),
+ "C18-j": ("FragSessionSetupAns flags decoded bit-reversed", "12 of 16 flag patterns"),
+ "C19-i": ("Encode divides by the fragment size before checking it", "fragment size 0: panic"),
+ "C19-j": ("word-wise XOR helper starts its byte tail at the block count", "fragment sizes >= 16"),
+ "C20-i": ("TimeSinceGPSEpoch returns 0 for instants before the GPS epoch", "1980-01-01 .. 1980-01-05"),
+ "C20-j": ("EIRP index rounds the requested power to nearest", "powers with fractional part >= .5 just below a table entry"),
+}
+R2.update(R5)
 res = {}
 p = os.path.join(V, "RESULTS.tsv")
 if os.path.exists(p):
@@ -149,7 +192,7 @@ for seed, (change, needs) in R2.items():
     if not os.path.isdir(d):
         continue
     meta = {"property": seed.split("-")[0], "change": change, "needs_to_manifest": needs,
-            "written_by": ("independent sub-agent (fourth round: a sibling inconsistency, a new code path with a flaw) given only the property text and a scratch worktree of /repo" if seed[-1] in "gh" else "independent sub-agent (third round: one small value-level change in a rarely exercised corner, one free choice) given only the property text and a scratch worktree of /repo" if seed[-1] in "ef" else "independent sub-agent (second round: asked for changes that need history, aliasing, interleavings or rare values) given only the property text and a scratch worktree of /repo"),
+            "written_by": ("independent sub-agent (fifth round: a validation regression, a unit / representation / order confusion) given only the property text and a scratch worktree of /repo" if seed[-1] in "ij" else "independent sub-agent (fourth round: a sibling inconsistency, a new code path with a flaw) given only the property text and a scratch worktree of /repo" if seed[-1] in "gh" else "independent sub-agent (third round: one small value-level change in a rarely exercised corner, one free choice) given only the property text and a scratch worktree of /repo" if seed[-1] in "ef" else "independent sub-agent (second round: asked for changes that need history, aliasing, interleavings or rare values) given only the property text and a scratch worktree of /repo"),
             "confirmed": {"applies_to": "/repo HEAD at the time of collection", "suite": "bin/baseline.sh with the patch applied: 235/235 stable tests pass",
                           "demo": "bin/confirm_seed.sh %s: demo_test.go fails with the patch and passes without" % seed},
             "caught_by": caught(seed)}
